@@ -1446,6 +1446,26 @@ func (self *BinaryServerProtocol) ProcessCommad(command protocol.ICommand) error
 
 			serverProtocol := NewTextServerProtocol(self.slock, self.stream)
 			err = serverProtocol.Process()
+			var transparencyProtocol *TransparencyTextServerProtocol
+			for err == AGAIN {
+				if self.slock.state != STATE_LEADER {
+					if transparencyProtocol == nil {
+						transparencyProtocol = NewTransparencyTextServerProtocol(self.slock, self.stream, serverProtocol)
+					}
+					err = transparencyProtocol.RunCommand()
+					if err == nil {
+						err = transparencyProtocol.Process()
+					}
+				} else {
+					err = serverProtocol.RunCommand()
+					if err == nil {
+						err = serverProtocol.Process()
+					}
+				}
+			}
+			if transparencyProtocol != nil && transparencyProtocol.clientProtocol != nil {
+				_ = transparencyProtocol.manager.ReleaseClient(transparencyProtocol.clientProtocol)
+			}
 			if err != nil {
 				if err != io.EOF {
 					self.slock.Log().Errorf("Protocol binary connection process error %s %v", self.RemoteAddr().String(), err)
